@@ -44,8 +44,12 @@ def run_family(c, prop, family, nquick):
     scenarios.sort(key=lambda s: json.dumps(s, sort_keys=True))
     total = len(scenarios)
     if quick and total > nquick:
+        # the identity / single-call scenarios are always run in full; the sample is drawn from the
+        # multi-operation sequences (a scenario whose top-level body has more than two ops)
         rnd = random.Random(c.seed)
-        scenarios = rnd.sample(scenarios, nquick)
+        core = [x for x in scenarios if x["top"]["op"] == "pc" or len(x["top"]["body"]) <= 2]
+        rest = [x for x in scenarios if not (x["top"]["op"] == "pc" or len(x["top"]["body"]) <= 2)]
+        scenarios = core + rnd.sample(rest, max(0, min(len(rest), nquick - len(core))))
     run_scenarios(wd, scenarios, c.seed)
     res, r = validate_trace(wd, "EvmCosmosTrace.tla", "EvmCosmosTrace.cfg", timeout=3000)
     n = count_lines(os.path.join(wd, "trace.ndjson"))
